@@ -19,6 +19,12 @@ two ids, concurrent inserts, searches during writes ...), random scenarios in th
 tier; the outcome (every call's result, the final store) must be the outcome of SOME sequential order of the same calls
 (`RefDb`, written from the interface).  Theorems: Props.C13 section Conc (lean/FlexModel/Ldm/QueryConc.lean), whose
 premise - every method is one lock section - is read from the source (lean/Generated/LdmSections.lean `dbUnits`).
+Round 5: (1) the TinyDB back-end under threads - the same `DbRace` on a real TinyDB (JSON file in a temp dir), tinydb's
+JSONStorage.read / write traced too (`TINYRACE_SCENARIOS`: a search / all racing a removal, an update by a shorter record,
+an insert); obligation `tinydb_methods_single_section` over the regenerated `tinyUnits`.  (2) Histories with EQUAL
+containers stored several times and removal BY VALUE (`delv k` = LDMMaintenance.del_provider_data with the container of
+the k-th add, model line `delv`, boundary family (d)): one copy goes per removal on both back-ends
+(Props.C13 `same_history_same_objects`, lean/FlexModel/Ldm/QueryBackends.lean).
 """
 from __future__ import annotations
 
@@ -36,7 +42,8 @@ TRUSTED = [
     "the Lean operator model (`pyEq`, `compare3`, `pyContains`) is compared with native Python ==, <, in on every "
     "generated filter through the correspondence; harness/ldm_common.py serialises Python values for the model",
     "thread schedules: harness/dsched.py (CPython executes one bytecode atomically; RLock replaced by a scheduler-aware "
-    "equivalent; every method of DictionaryDataBase traced at opcode granularity); the Lean thread model (QueryConc.lean "
+    "equivalent; every method of DictionaryDataBase - and of the TinyDB class plus tinydb's JSONStorage.read / write - traced "
+    "at opcode granularity; the rest of the tinydb library runs un-pre-empted); the Lean thread model (QueryConc.lean "
     "over FlexModel/Conc/Sched.lean) treats a `with self._lock` section as one atomic block and is tied to the source by "
     "the regenerated section list only (an `ast` pass: harness/gen_ldm_subs.py db_units)",
 ]
@@ -57,8 +64,13 @@ ASSUMPTIONS = [
     "back-end equality is modulo JSON (TinyDB returns lists where tuples were stored); known finding C13-KF3: filters "
     "whose reference value is or contains a tuple/list select differently on the two back-ends",
     "'the same history of operations' for calls issued by several threads = some sequential order of the calls that keeps "
-    "each thread's own order (linearisability); judged on the in-memory back-end only (TinyDB is used single-threaded by "
-    "the facility's tests and has no lock of its own); update / remove_by_id use identifiers that have been issued",
+    "each thread's own order (linearisability); judged on the in-memory back-end and (round 5) on the TinyDB class, whose "
+    "lock is the only protection of tinydb's shared file handle; update / remove_by_id use identifiers that have been "
+    "issued, and on TinyDB an update never races the removal of its own id (TinyDB.update of an absent id raises KeyError "
+    "where the in-memory back-end upserts; IF.LDM.3 checks `exists` first)",
+    "removal by value (`delv`) is issued on LDMMaintenance.del_provider_data with the container in the form the back-end "
+    "returns it (what add_provider_data stored; its JSON image on TinyDB) - the call the maintenance passes make; 'equal' "
+    "is Python's == on the stored dictionaries",
 ]
 
 TYPES = {"cam": 2, "vam": 16, "denm": 1}
@@ -353,11 +365,24 @@ def gen_case(rng, pool, force_json=None):
     ops, k = [], 0
     n_mid = rng.choice([0, 2, 3]) if dynamic else 0
     mid_at = rng.randrange(1, len(objs) + 1) if (dynamic and objs) else None
+    # round 5: EQUAL containers (a message delivered twice: same application, time stamp, location, validity and data
+    # object) and removal BY VALUE (`delv k`: LDMMaintenance.del_provider_data with the container of the k-th add)
+    dupes = dynamic and rng.random() < 0.5
+    adds = []
     for i, o in enumerate(objs):
-        validity = rng.choice([1, 2, 3]) if (timed and rng.random() < 0.4) else 10 ** 6
-        ops.append(["add", provider_of(o), L.now_its(utc) + k, dict(FAR, minC=k % 3), validity, L.ser(o)])
+        if dupes and adds and rng.random() < 0.35:
+            op = list(rng.choice(adds))
+            objs[i] = L.deser(op[5])
+        else:
+            validity = rng.choice([1, 2, 3]) if (timed and rng.random() < 0.4) else 10 ** 6
+            op = ["add", provider_of(o), L.now_its(utc) + k, dict(FAR, minC=k % 3), validity, L.ser(o)]
+        ops.append(op)
+        adds.append(op)
         k += 1
-        if dynamic:
+        if dupes and rng.random() < 0.3:
+            twins = [j for j in range(k) if sum(1 for a in adds if a[1:] == adds[j][1:]) > 1]
+            ops.append(["delv", rng.choice(twins) if (twins and rng.random() < 0.7) else rng.randrange(0, k)])
+        elif dynamic:
             x = rng.random()
             if x < 0.30:
                 # delete an earlier object: mostly NOT the newest one (the identifier of the next insert must stay fresh)
@@ -394,7 +419,8 @@ def boundary_cases():
       (a) objects lacking the attribute x every operator x reference values of matching / other value / other type,
       (b) two-statement AND / OR filters over objects satisfying both / exactly one / none of the statements (also with
           the second statement on an attribute some objects lack),
-      (c) histories add / delete (not the newest) / add, update, delete of a missing identifier."""
+      (c) histories add / delete (not the newest) / add, update, delete of a missing identifier,
+      (d) equal containers stored two or three times, removal by value in between (round 5)."""
     now = L.now_its(L.UTC0_MS)
 
     def add(k, o, app=None):
@@ -452,6 +478,15 @@ def boundary_cases():
         ops += [["delk", 2, victim]] + q + [add(3, cam(4, 5, 400))] + q + [["updk", 2, (victim + 1) % 3, L.ser(cam(9, 6, 999))]] + q
         ops += [["delk", 2, 17], add(4, vam(5, "ordinary")), ["delk", 2, 3]] + q
         out.append({"json_only": True, "ops": ops})
+    # (d) EQUAL containers stored more than once, then removal by value (`delv k` names the container of the k-th add):
+    #     exactly ONE stored copy goes per removal, on both back-ends; a copy that was updated / removed by id is no copy
+    a_, b_, c_ = add(0, cam(1, 5, 100)), add(1, cam(2, 5, 200)), add(2, cam(3, 6, 300))
+    out.append({"json_only": True, "ops": [a_, b_, list(b_), c_] + q + [["delv", 1]] + q + [["delv", 3]] + q + [["delv", 2]] + q
+                + [["delv", 2]] + q})
+    out.append({"json_only": True, "ops": [b_, list(b_), list(b_)] + q + [["delk", 2, 0]] + q + [["delv", 1]] + q + [add(3, cam(4, 5, 400))]
+                + q + [["delv", 2]] + q + [["delv", 0]] + q})
+    out.append({"json_only": True, "ops": [a_, b_, list(b_), list(b_)] + [["updk", 2, 1, L.ser(cam(9, 5, 999))]] + q + [["delv", 2]] + q
+                + [list(b_)] + q + [["delv", 1]] + q})
     return out
 
 
@@ -510,8 +545,19 @@ class RefStore:
     def add(self, op, ok):
         _, app, ts, loc, validity, objser = op
         if ok:
-            self.rows.append([self.n, app, ts, validity, L.deser(objser)])
+            self.rows.append([self.n, app, ts, validity, L.deser(objser), dict(loc)])
         self.n += 1
+
+    def delete_value(self, op, json_image=False):
+        """removal by value: the FIRST stored container equal to the one the add `op` stored goes - one copy, not all
+        (equal as the back-end sees its content: modulo JSON on TinyDB)"""
+        _, app, ts, loc, validity, objser = op
+        img = to_json_image if json_image else (lambda x: x)
+        obj = img(L.deser(objser))
+        for j, r in enumerate(self.rows):
+            if r[1] == app and r[2] == ts and r[3] == validity and r[5] == dict(loc) and img(r[4]) == obj:
+                del self.rows[j]
+                return
 
     def delete(self, k):
         self.rows = [r for r in self.rows if r[0] != k]
@@ -523,7 +569,7 @@ class RefStore:
                 r[4] = new
 
     def tokens(self, json_image):
-        return [record_key(app, ts, validity, obj, json_image) for _, app, ts, validity, obj in self.rows]
+        return [record_key(app, ts, validity, obj, json_image) for _, app, ts, validity, obj, _loc in self.rows]
 
 
 def type_name(obj):
@@ -550,6 +596,9 @@ def stored_keys(stored, json_image):
 def run_case(ctx, case, tag, model_dict=None, model_tiny=None):
     """run the history on a Dictionary facility (and a TinyDB one when storable), judge every request on both"""
     backends = ["Dictionary"] + (["TinyDB"] if case["json_only"] else [])
+    # every operation its own object: `replay_case` finds the judged operation by identity (the boundary families repeat
+    # the same request lists)
+    case = {"json_only": case["json_only"], "ops": [list(op) for op in case_ops(case)]}
     ops = case_ops(case)
     reqs = [op for op in ops if op[0] == "req"]
     answers, waivers = {}, {}
@@ -557,13 +606,14 @@ def run_case(ctx, case, tag, model_dict=None, model_tiny=None):
         with L.RealLdm(CFG, be) as r:
             for op in PRE:
                 r.apply(op)
-            ids, ref, lines, wv = [], RefStore(), [], []
+            ids, ref, lines, wv, addops = [], RefStore(), [], [], []
             for op in ops:
                 n = op[0]
                 if n == "add":
                     ln = r.apply(op)
                     ok = ln.startswith("c ") and int(ln.split(" ")[1]) >= 0
                     ids.append(int(ln.split(" ")[1]) if ok else None)
+                    addops.append(op)
                     ref.add(op, ok)
                     if ln.startswith("x "):
                         fid = "C13-KF1" if (be == "TinyDB" and has_bytes(L.deser(op[5]))) else None
@@ -579,6 +629,17 @@ def run_case(ctx, case, tag, model_dict=None, model_tiny=None):
                     elif ln == "c 0":
                         ref.delete(k) if n == "delk" else ref.update(k, op[3])
                     ctx.cover(f"hist_{n}:{ln}")
+                    continue
+                if n == "delv":
+                    if op[1] < len(addops):
+                        src = addops[op[1]]
+                        ln = r.apply(["delv"] + list(src[1:]))
+                        if ln.startswith("x "):
+                            ctx.violation(f"{tag}: {be}: removal by value (del_provider_data) raised {ln[2:]}", replay_case(case, op))
+                        elif ids[op[1]] is not None:
+                            ref.delete_value(src, be == "TinyDB")
+                        copies = sum(1 for a in addops if a[1:] == src[1:])
+                        ctx.cover("hist_delv:" + ("several_equal_added" if copies > 1 else "single"))
                     continue
                 if n in ("adv", "gc"):
                     r.apply(op)
@@ -680,9 +741,14 @@ def model_lines(ctx, cases, variants):
     for c in cases:
         lines.append(L.init_line(CFG, variants))
         lines += [L.op_line(op) for op in PRE]
-        ia, ib = [], []
+        ia, ib, addops = [], [], []
         for op in case_ops(c):
-            if op[0] == "req":
+            if op[0] == "add":
+                addops.append(op)
+            if op[0] == "delv":
+                if op[1] < len(addops):
+                    lines.append(L.op_line(["delv"] + list(addops[op[1]][1:])))
+            elif op[0] == "req":
                 ia.append(len(lines))
                 lines.append(L.op_line(op))
                 ib.append(len(lines))
@@ -714,6 +780,23 @@ def dbrace_env():
     return _DBR
 
 
+def tinyrace_env():
+    """round 5: the TinyDB back-end under threads.  Traced at opcode granularity: every method of the back-end class AND
+    tinydb's JSONStorage.read / write - the storage shares ONE file handle between reads and writes and rewrites the file
+    in place (seek(0), write, flush, fsync, truncate), so the points between these calls are where a read that is not
+    inside the back-end's lock section sees a half-written file"""
+    if not _TDR:
+        import flexstack.facilities.local_dynamic_map.tinydb_database as t_mod
+        import tinydb.storages as st
+        codes = [f.__code__ for f in vars(t_mod.TinyDB).values() if hasattr(f, "__code__")]
+        codes += [st.JSONStorage.read.__code__, st.JSONStorage.write.__code__]
+        _TDR.update(mod=t_mod, files=[t_mod.__file__], codes=codes)
+    return _TDR
+
+
+_TDR = {}
+
+
 def rec(sid, g):
     """a stored data container as IF.LDM.3 builds it (the fields the back-end looks at)"""
     return {"application_id": 2, "timestamp": 1000 + g, "dataObject": {"header": {"stationId": sid}, "cam": {"generationDeltaTime": g}}}
@@ -728,9 +811,10 @@ class RefDb:
     order and never reused, update stores under the id, remove deletes the first stored object equal to the argument,
     remove_by_id deletes the id, search returns the stored objects of the station in store order)"""
 
-    def __init__(self, rows):
-        self.rows = [(i, r) for i, r in enumerate(rows)]
-        self.next = len(rows)
+    def __init__(self, rows, first=0):
+        self.rows = [(i + first, r) for i, r in enumerate(rows)]
+        self.next = len(rows) + first
+        self.undefined = False          # a call whose outcome the interface leaves open was made (update of an absent id)
 
     def call(self, c):
         n = c[0]
@@ -744,6 +828,7 @@ class RefDb:
                     self.rows[j] = (k, tuple(c[2]))
                     break
             else:
+                self.undefined = True   # the two back-ends differ here (upsert / KeyError); IF.LDM.3 checks `exists` first
                 self.rows.append((c[1], tuple(c[2])))
             return True
         if n == "remove":
@@ -782,10 +867,14 @@ def interleavings(threads):
     return out
 
 
+def backend_of(sc):
+    return sc.get("backend", "Dictionary")
+
+
 def serial_outcomes(sc):
     outs = []
     for order in interleavings(sc["threads"]):
-        ref = RefDb([tuple(r) for r in sc["rows"]])
+        ref = RefDb([tuple(r) for r in sc["rows"]], 1 if backend_of(sc) == "TinyDB" else 0)     # document ids start at 1
         res = {}
         for u, i in order:
             res[(u, i)] = ref.call(sc["threads"][u][i])
@@ -794,52 +883,78 @@ def serial_outcomes(sc):
 
 
 class DbRace:
-    """2-3 REAL threads, each issuing its calls on ONE real DictionaryDataBase, under harness/dsched.py (its RLock replaced
-    by the scheduler's, every method of the class traced at opcode granularity).  Outcome = every call's result and the
-    final store (ids and objects in store order)."""
+    """2-3 REAL threads, each issuing its calls on ONE real back-end object, under harness/dsched.py (its RLock replaced
+    by the scheduler's, every method of the class traced at opcode granularity).  Back-end: DictionaryDataBase, or
+    (scenario["backend"] == "TinyDB", round 5) a real TinyDB on a JSON file in a temp dir (removed afterwards), with
+    tinydb's JSONStorage.read / write traced as well.  Outcome = every call's result and the final store (ids and objects
+    in store order; for TinyDB read back from the file after the run - a file that can no longer be read is an outcome)."""
 
     def __init__(self, sc, policy):
         import dsched
         import realstack as rs
         from flexstack.facilities.local_dynamic_map import ldm_classes as K
-        env = dbrace_env()
+        tiny = backend_of(sc) == "TinyDB"
+        env = tinyrace_env() if tiny else dbrace_env()
         self.sc = sc
-        with dsched.patched([env["mod"]]):
-            db = env["mod"].DictionaryDataBase()
-            for r in sc["rows"]:
-                db.insert(rec(*r))
-            sched = dsched.DSched(policy, line_files=env["files"], opcode_codes=env["codes"], max_steps=40000)
-            self.s = sched
-            res = {}
+        tmp = None
+        db = None
+        try:
+            with dsched.patched([env["mod"]]):
+                if tiny:
+                    import tempfile
+                    tmp = tempfile.mkdtemp(prefix="verif_c13_")
+                    with rs.quiet():
+                        db = env["mod"].TinyDB("race.json", tmp)
+                else:
+                    db = env["mod"].DictionaryDataBase()
+                for r in sc["rows"]:
+                    db.insert(rec(*r))
+                sched = dsched.DSched(policy, line_files=env["files"], opcode_codes=env["codes"], max_steps=40000)
+                self.s = sched
+                res = {}
 
-            def do(c):
-                n = c[0]
-                if n == "insert":
-                    return db.insert(rec(*c[1]))
-                if n == "update":
-                    return db.update(rec(*c[2]), c[1])
-                if n == "remove":
-                    return db.remove(rec(*c[1]))
-                if n == "remove_by_id":
-                    return db.remove_by_id(c[1])
-                if n == "search":
-                    flt = K.Filter(K.FilterStatement("header.stationId", K.ComparisonOperators.EQUAL, c[1]))
-                    return [rec_key(d) for d in db.search(K.RequestDataObjectsReq(2, (2,), None, None, flt))]
-                if n == "all":
-                    return [rec_key(d) for d in db.all()]
-                raise Infra(f"dbrace call {n}")
+                def do(c):
+                    n = c[0]
+                    if n == "insert":
+                        return db.insert(rec(*c[1]))
+                    if n == "update":
+                        return db.update(rec(*c[2]), c[1])
+                    if n == "remove":
+                        return db.remove(rec(*c[1]))
+                    if n == "remove_by_id":
+                        return db.remove_by_id(c[1])
+                    if n == "search":
+                        flt = K.Filter(K.FilterStatement("header.stationId", K.ComparisonOperators.EQUAL, c[1]))
+                        return [rec_key(d) for d in db.search(K.RequestDataObjectsReq(2, (2,), None, None, flt))]
+                    if n == "all":
+                        return [rec_key(d) for d in db.all()]
+                    raise Infra(f"dbrace call {n}")
 
-            def body(u):
-                def run_thread():
-                    for i, c in enumerate(sc["threads"][u]):
-                        res[(u, i)] = do(c)
-                return run_thread
-            for u in range(len(sc["threads"])):
-                sched.spawn(body(u), name=f"t{u}")
-            with rs.quiet():
-                sched.run(timeout=30.0)
-            self.results = sorted(res.items())
-            self.final = [(k, rec_key(v)) for k, v in db.database.items()]
+                def body(u):
+                    def run_thread():
+                        for i, c in enumerate(sc["threads"][u]):
+                            res[(u, i)] = do(c)
+                    return run_thread
+                for u in range(len(sc["threads"])):
+                    sched.spawn(body(u), name=f"t{u}")
+                with rs.quiet():
+                    sched.run(timeout=30.0)
+                self.results = sorted(res.items())
+                if tiny:
+                    try:
+                        self.final = [(d.doc_id, rec_key(d)) for d in db.database.all()]
+                    except Exception as e:      # noqa: BLE001 - a store that cannot be read any more IS the observation
+                        self.final = f"unreadable: reading the store raises {type(e).__name__} ({str(e)[:60]})"
+                else:
+                    self.final = [(k, rec_key(v)) for k, v in db.database.items()]
+        finally:
+            if tmp is not None:
+                import shutil
+                try:
+                    db.database.close()
+                except Exception:               # noqa: BLE001
+                    pass
+                shutil.rmtree(tmp, ignore_errors=True)
         self.steps = sched.steps
         self.choices = [c[0] for c in sched.steps]
 
@@ -849,15 +964,17 @@ class DbRace:
             return [f"deadlock: {s.deadlock}"]
         if s.abort_reason:
             raise Infra(f"scheduler aborted: {s.abort_reason}")
-        bad = [f"{t.name} raised {type(t.exc).__name__}: {t.exc}" for t in s.threads if t.exc is not None]
-        if bad:
-            return bad
+        bad = [f"{t.name} raised {type(t.exc).__name__}: {str(t.exc)[:80]}" for t in s.threads if t.exc is not None]
         serial = serial_outcomes(self.sc)
+        calls = "; ".join(f"t{u}:{' '.join(call_text(c) for c in t)}" for u, t in enumerate(self.sc["threads"]))
+        name = "TinyDB" if backend_of(self.sc) == "TinyDB" else "in-memory"
+        if bad:
+            return [f"concurrent calls [{calls}] on the {name} back-end: {'; '.join(bad)}; final store {self.final} - every "
+                    f"sequential order of the same calls answers every call"]
         if not any(res == self.results and rows == self.final for res, rows, _ in serial):
-            calls = "; ".join(f"t{u}:{' '.join(call_text(c) for c in t)}" for u, t in enumerate(self.sc["threads"]))
             got = ", ".join(f"t{u}.{i}={r}" for (u, i), r in self.results)
             stores = sorted({str(rows) for _, rows, _ in serial})
-            bad.append(f"concurrent calls [{calls}] on the in-memory back-end: results {got}, final store {self.final} - "
+            bad.append(f"concurrent calls [{calls}] on the {name} back-end: results {got}, final store {self.final} - "
                        f"no sequential order of the same calls gives this (the {len(serial)} orders leave {' or '.join(stores)})")
         return bad
 
@@ -880,6 +997,39 @@ DBRACE_SCENARIOS = [
     {"rows": DBRACE_ROWS, "threads": [[["remove_by_id", 1]], [["update", 1, FRESH]]]},
     {"rows": DBRACE_ROWS, "threads": [[["remove", OLD]], [["update", 1, FRESH]], [["search", 7]]]},
 ]
+
+
+# round 5: the TinyDB back-end (document ids from 1).  The writer's call SHRINKS the file in most scenarios (a removal, an
+# update by a shorter record): the storage rewrites the file in place and truncates last.
+TROWS = [[1, 100], [7, 100], [9, 100], [7, 300]]
+TINYRACE_SCENARIOS = [
+    {"backend": "TinyDB", "rows": TROWS, "threads": [[["remove_by_id", 2]], [["search", 7]]]},
+    {"backend": "TinyDB", "rows": TROWS, "threads": [[["remove", [7, 100]]], [["all"]]]},
+    {"backend": "TinyDB", "rows": [[1, 100], [7, 100000], [9, 100]], "threads": [[["update", 2, [7, 1]]], [["search", 7]]]},
+    {"backend": "TinyDB", "rows": TROWS, "threads": [[["insert", [5, 100]]], [["search", 7]]]},
+    {"backend": "TinyDB", "rows": TROWS + [[7, 100]], "threads": [[["remove", [7, 100]]], [["remove_by_id", 2]]]},
+    {"backend": "TinyDB", "rows": TROWS, "threads": [[["remove_by_id", 2], ["insert", [7, 500]]], [["search", 7], ["all"]]]},
+]
+
+
+def gen_tinyrace(rng):
+    """a random scenario on the TinyDB back-end: ids from 1, no update of an id that may be absent when it runs"""
+    for _ in range(50):
+        sc = gen_dbrace(rng)
+        sc["backend"] = "TinyDB"
+        for t in sc["threads"]:
+            for c in t:
+                if c[0] in ("update", "remove_by_id"):
+                    c[1] += 1
+        undefined = False
+        for order in interleavings(sc["threads"]):
+            ref = RefDb([tuple(r) for r in sc["rows"]], 1)
+            for u, i in order:
+                ref.call(sc["threads"][u][i])
+            undefined = undefined or ref.undefined
+        if not undefined:
+            return sc
+    return dict(TINYRACE_SCENARIOS[0])
 
 
 def gen_dbrace(rng):
@@ -915,7 +1065,7 @@ def dbrace_explore(ctx, scenarios, cap1, cap2, n_pct, tag):
     for k, sc in enumerate(scenarios):
         def handle(run, sc=sc, k=k):
             ctx.evals()
-            ctx.cover("dbrace_runs")
+            ctx.cover("dbrace_runs" if backend_of(sc) != "TinyDB" else "tinyrace_runs")
             ctx.cover("dbrace_preemptions_%d" % min(dsched.preemptions(run.steps), 3))
             ctx.nontrivial(("dbrace", tuple(c[0] for t in sc["threads"] for c in t), str(run.results), str(run.final)))
             for what in run.judge():
@@ -986,8 +1136,10 @@ def run(ctx):
             for what in r.judge():
                 ctx.violation(f"corpus:{n}: {what}", {"kind": "dbrace", "scenario": c["scenario"], "schedule": c.get("schedule", [])})
     dbrace_explore(ctx, DBRACE_SCENARIOS, ctx.scale(300, 2000), ctx.scale(12, 600), ctx.scale(3, 60), "threads")
+    dbrace_explore(ctx, TINYRACE_SCENARIOS, ctx.scale(400, 3000), ctx.scale(6, 400), ctx.scale(2, 40), "threads:tinydb")
     if ctx.thorough:
         dbrace_explore(ctx, [gen_dbrace(ctx.rng) for _ in range(150)], 400, 60, 6, "threads:random")
+        dbrace_explore(ctx, [gen_tinyrace(ctx.rng) for _ in range(60)], 500, 40, 4, "threads:tinydb:random")
     if cases:
         c = cases[-1][1]
         ops = case_ops(c)
@@ -998,7 +1150,11 @@ def run(ctx):
 def search(ctx):
     dbrace_explore(ctx, DBRACE_SCENARIOS, ctx.scale(600, 6000), ctx.scale(200, 3000), ctx.scale(20, 200), "search:threads")
     if len(ctx.violations) < 3:
+        dbrace_explore(ctx, TINYRACE_SCENARIOS, ctx.scale(800, 6000), ctx.scale(100, 2000), ctx.scale(10, 100), "search:threads:tinydb")
+    if len(ctx.violations) < 3:
         dbrace_explore(ctx, [gen_dbrace(ctx.rng) for _ in range(ctx.scale(40, 600))], 300, 40, 4, "search:threads:random")
+    if len(ctx.violations) < 3:
+        dbrace_explore(ctx, [gen_tinyrace(ctx.rng) for _ in range(ctx.scale(12, 200))], 500, 30, 3, "search:threads:tinydb:random")
     if len(ctx.violations) >= 3:
         return
     pool = message_pool(ctx, 24)
@@ -1029,7 +1185,8 @@ def replay(ctx, obj):
     n0 = len(ctx.violations) + sum(v["count"] for v in ctx.known_seen.values())
     c = as_case(case)
     ans = run_case(ctx, c, "replay")
-    print("  history:", " ".join(op[0] + (f"({op[2]})" if op[0] in ("delk", "updk") else "") for op in c["ops"] if op[0] != "req"))
+    print("  history:", " ".join(op[0] + (f"({op[2]})" if op[0] in ("delk", "updk") else f"({op[1]})" if op[0] == "delv" else "")
+                                 for op in c["ops"] if op[0] != "req"))
     for be, lines in ans.items():
         for req, ln in zip([op for op in c["ops"] if op[0] == "req"], lines):
             print(f"  {be}: types={req[2]} order={req[4]} filter={flt_text(req[5])} -> {ln.split(' ')[0]} {ln.count('{')} objects")
